@@ -255,10 +255,10 @@ func init() {
 			return dg
 		}
 		qq := &vf.Family{
-			Name:   "quasiquote-templates",
-			Bounds: "all templates of weight <=6 (quick) / <=7 (thorough): 9 literal leaves, lists/vectors of 1-3 elements, (unquote E) anywhere, (splice-unquote E) at element positions, E over 7 expressions (two with effects)",
-			Setup:  setup,
-			N:      func(t string) int64 { tier = t; return dgOf().Count(0, dW()) },
+			Name:     "quasiquote-templates",
+			Bounds:   "all templates of weight <=6 (quick) / <=7 (thorough): 9 literal leaves, lists/vectors of 1-3 elements, (unquote E) anywhere, (splice-unquote E) at element positions, E over 7 expressions (two with effects)",
+			Setup:    setup,
+			N:        func(t string) int64 { tier = t; return dgOf().Count(0, dW()) },
 			Describe: func(i int64) string { return form("quasiquote", dgOf().Unrank(0, i)).Lisp() },
 			Run: func(i int64, r *vf.Rec) {
 				t := dgOf().Unrank(0, i)
@@ -326,10 +326,10 @@ func init() {
 				form("vector", form("quasiquote", t1), form("quasiquote", t2), sym("l"), sym("v")))
 		}
 		pairs := &vf.Family{
-			Name:   "template-pairs",
-			Bounds: "(let [l '(0 1 2) v [4 5 6]] (vector `T1 `T2 l v)) for every ordered pair of well-formed templates of the same grammar that contain an unquote or a splice, T1 of weight <=4 (quick) / <=5 (thorough) and T2 of weight <=4: the spliced values have spare capacity in their backing arrays, both results and both spliced values are looked at afterwards",
-			Setup:  setup,
-			N:      func(t string) int64 { tier = t; return int64(len(idxOf(pW1()))) * int64(len(idxOf(pW2))) },
+			Name:     "template-pairs",
+			Bounds:   "(let [l '(0 1 2) v [4 5 6]] (vector `T1 `T2 l v)) for every ordered pair of well-formed templates of the same grammar that contain an unquote or a splice, T1 of weight <=4 (quick) / <=5 (thorough) and T2 of weight <=4: the spliced values have spare capacity in their backing arrays, both results and both spliced values are looked at afterwards",
+			Setup:    setup,
+			N:        func(t string) int64 { tier = t; return int64(len(idxOf(pW1()))) * int64(len(idxOf(pW2))) },
 			Describe: func(i int64) string { return pairProg(i).Lisp() },
 			Run: func(i int64, r *vf.Rec) {
 				t1, t2 := pairOf(i)
@@ -377,10 +377,10 @@ func init() {
 			return
 		}
 		mac := &vf.Family{
-			Name:   "macros-from-templates",
-			Bounds: "(defmacro mac (fn [p & r] `CT)) for every code template CT of weight <=4 (quick) / <=5 (thorough) over 11 forms and 7 element leaves, applied to every operand tuple of length 1-2 (quick) / 1-3 (thorough) over 7 operands (incl. the macro's own name); the expander logs an effect; same body as an ordinary function; the same macro also defined under the names try and fn (special-form heads)",
-			Setup:  setup,
-			N:      func(t string) int64 { tier = t; return cgOf().Count(0, cW()) * int64(len(argsOf())) },
+			Name:     "macros-from-templates",
+			Bounds:   "(defmacro mac (fn [p & r] `CT)) for every code template CT of weight <=4 (quick) / <=5 (thorough) over 11 forms and 7 element leaves, applied to every operand tuple of length 1-2 (quick) / 1-3 (thorough) over 7 operands (incl. the macro's own name); the expander logs an effect; same body as an ordinary function; the same macro also defined under the names try and fn (special-form heads)",
+			Setup:    setup,
+			N:        func(t string) int64 { tier = t; return cgOf().Count(0, cW()) * int64(len(argsOf())) },
 			Describe: func(i int64) string { d, c, _, _ := macProg(i); return form("do", d, c).Lisp() },
 			Run: func(i int64, r *vf.Rec) {
 				d, c, fd, fc := macProg(i)
@@ -461,9 +461,9 @@ func init() {
 		}
 		return &vf.Check{
 			ID: "C12", Level: "model_checking",
-			Rule: "every quasiquote template of the bounded grammar is compared with a substitution computed on the model ADT (and with eval of quasiquoteexpand); every macro built from a bounded code template x every operand tuple is compared with the definitional interpreter, with evaluation of its own macroexpand result (head no longer a macro), and with the same body as an ordinary function; non-trivial = has effects",
+			Rule:        "every quasiquote template of the bounded grammar is compared with a substitution computed on the model ADT (and with eval of quasiquoteexpand); every macro built from a bounded code template x every operand tuple is compared with the definitional interpreter, with evaluation of its own macroexpand result (head no longer a macro), and with the same body as an ordinary function; non-trivial = has effects",
 			Assumptions: []string{"unquote/splice-unquote with a wrong operand count are malformed (C04's domain) and skipped", "splicing a non-sequence is unspecified and skipped"},
-			Families: []*vf.Family{qq, pairs, mac, twice, fx},
+			Families:    []*vf.Family{qq, pairs, mac, twice, fx},
 		}
 	})
 }
